@@ -399,6 +399,10 @@ func (g *OpGen) Next(m *Model) Op {
 		}
 	case "advance":
 		op.D = g.genAdvance(m)
+	case "all", "keys", "values", "hottest", "coldest":
+		if r.Intn(3) == 0 {
+			op.D = int64(1 + r.Intn(3)) // the caller stops iterating early
+		}
 	case "runexec":
 		op.D = int64(r.Intn(4)) - 1 // -1: run everything that is queued
 		if op.D == 0 {
